@@ -54,9 +54,14 @@ def entries(tier):
             out.append(("non_negative_tucker_hals", {"init": init, "normalize_factors": norm}))
             out.append(("parafac2", {"init": init, "normalize_factors": norm, "linesearch": False}))
         out.append(("tucker", {"init": init}))
+        out.append(("tucker", {"init": init, "svd": "symeig_svd"}))
         out.append(("randomised_parafac", {"init": init, "n_samples": 10}))
         out.append(("cmtf", {"init": init}))
     out.append(("parafac", {"init": "svd", "normalize_factors": True, "linesearch": True}))
+    for sc in (1e-18, 1e18):
+        out.append(("parafac", {"init": "random", "normalize_factors": True, "_scale": sc}))
+        out.append(("parafac", {"init": "svd", "normalize_factors": True, "_scale": sc}))
+        out.append(("non_negative_parafac", {"init": "random", "normalize_factors": True, "_scale": sc}))
     out.append(("parafac", {"init": "random", "normalize_factors": True, "l2_reg": 0.1}))
     out.append(("CP-class", {"init": "svd", "normalize_factors": True}))
     out.append(("parafac2", {"init": "random", "normalize_factors": True, "linesearch": True}))
@@ -160,6 +165,8 @@ class C08(Check):
         if nonneg:
             fam = {"generic": "nonneg", "lowrank": "nonneg-lowrank", "integer": "sparse-nonneg"}[fam]
         X = itm.data_tensor(fam, shape, 2, case["seed"])
+        if "_scale" in opts:  # the same data in a tiny / huge unit (numerical guards around "zero" norms)
+            X = X * opts.pop("_scale")
         tag = entry + (":symeig_svd" if opts.get("svd") == "symeig_svd" else "")
         rs = 0
         np.random.seed(20260927)
@@ -327,7 +334,7 @@ class C08(Check):
                 if opts.get("normalize_factors"):
                     for k, f in enumerate(fs):
                         cn = colnorms(f)
-                        badc = [j for j in range(len(cn)) if cn[j] > 1e-12 and abs(cn[j] - 1) > 1e-8]
+                        badc = [j for j in range(len(cn)) if cn[j] != 0 and abs(cn[j] - 1) > 1e-8]  # (an exactly zero column stays zero)
                         if badc:
                             return viol("factor-columns-not-unit-norm", f"factor {k} column norms {cn}")
         # ---------------- TT / TR
@@ -373,7 +380,7 @@ class C08(Check):
         if normalized:
             for k, f in enumerate(fs):
                 cn = colnorms(f)
-                badc = [j for j in range(len(cn)) if cn[j] > 1e-12 and abs(cn[j] - 1) > 1e-8]
+                badc = [j for j in range(len(cn)) if cn[j] != 0 and abs(cn[j] - 1) > 1e-8]  # (an exactly zero column stays zero)
                 if badc:
                     viol("factor-columns-not-unit-norm", f"normalize_factors=True but factor {k} has column norms {cn} (weights {None if w is None else np.asarray(w)})")
                     return
